@@ -289,7 +289,7 @@ class _World:
         import cspuz.backend._subproc as sp
 
         self.fake_sub = peers.FakeSubprocessModule(self.peer, self.recorder)
-        sp.subprocess = self.fake_sub
+        peers.patch_subproc(sp, self.fake_sub)  # the module object is thrown away at the next restart
         return self.cspuz
 
     def close(self):
